@@ -98,6 +98,7 @@ func (w *World) verifyFunc(key string) (g *Gen) {
 		a.applyUse(env, u, "true", key+"/entry")
 	}
 	a.computeMods()
+	a.crashPoint(&blockCtx{reach: "true", st: st}, "entry", token.NoPos)
 	if len(spec.EntryGhost) > 0 {
 		ectx := &blockCtx{reach: "true", st: st}
 		for _, gu := range spec.EntryGhost {
